@@ -278,4 +278,18 @@ def judge_set_data(o):
         bad.append(("copy", f"_set_data writes into the caller's frame: {[e for e in o['effects'] if not e[1].startswith('data.copy()')]} {ctx}"))
     if other:
         bad.append(("zero", f"unexpected attribute stores {other} {ctx}"))
+    # the index may be re-expressed (time zone, resolution) but every reading keeps its instant: an index store's value is the frame's own
+    # index passed through instant-preserving conversions only
+    import re as _re
+    for e in [x for x in o["effects"] if x[0] == "setattr" and x[2] == "index"]:
+        t = e[3]
+        prev = None
+        while prev != t:
+            prev = t
+            t = _re.sub(r"\.tz_convert\((?:[^()]|\([^()]*\))*\)$", "", t)
+            t = _re.sub(r"\.astype\('datetime64\[ns[^']*'\)$", "", t)
+            t = _re.sub(r"\.as_unit\('ns'\)$", "", t)
+            t = _re.sub(r"\.copy\(\)$", "", t)
+        if t not in ("data.copy().index", "pd.to_datetime(data.copy().index)", "pd.DatetimeIndex(data.copy().index)", "pd.to_datetime(data.copy()['datetime'])", "pd.DatetimeIndex(data.copy()['datetime'])"):
+            bad.append(("index", f"the timestamps of the readings are altered: the index is set to `{e[3][:160]}` (only time-zone / resolution conversions keep every reading at its instant) {ctx}"))
     return bad
